@@ -491,6 +491,22 @@ def many_candidates_case(d, rules=model.GREGORY):
     return dict(ncand=nc, nseats=ns, withdrawn=wd, undeclared=[], tie=None, ballots=ballots, title='T', names=None, rule=rule, options={})
 
 
+# elections (found by scanning 2*10^5 small ones with the reference count) in which an iteration of meek-prf that elects nobody ends
+# with a total surplus of exactly omega = 0.000001: B.2.e ("less than omega") must iterate once more
+MEEK_PRF_OMEGA_BOUNDARY = [[5, 2, [[15, [2]], [28, [1, 5, 2, 4, 3]], [9, [5, 1, 3]], [27, [4]], [24, [2]]]], [4, 2, [[22, [4]], [3, [2, 1, 3]], [5, [2, 1]], [24, [2, 1, 4, 3]], [19, [1, 4, 3, 2]], [13, [1, 4, 2, 3]], [17, [4]]]], [5, 3, [[25, [5]], [20, [3, 2, 5, 1, 4]], [22, [5, 2, 3, 4]], [14, [4, 3, 5, 2]], [6, [2]], [19, [5, 1, 3, 2, 4]], [30, [1, 4]]]], [5, 3, [[11, [2]], [23, [4, 1, 2, 5, 3]], [30, [5, 4, 3, 1, 2]], [2, [2, 3]], [16, [3, 5]], [27, [5]], [29, [4, 5, 1]]]]]
+
+
+def meek_prf_boundary_case(d):
+    "one of the boundary elections above under a random relabelling of the candidates (tie order relabelled with them)"
+    nc, ns, ballots = d.choice(MEEK_PRF_OMEGA_BOUNDARY)
+    f = dict(zip(range(1, nc + 1), d.perm(range(1, nc + 1))))
+    bl = [[m, [[f[c]] for c in r]] for m, r in ballots]
+    if d.p(50):
+        bl = d.perm(bl)
+    return dict(ncand=nc, nseats=ns, withdrawn=[], undeclared=[], tie=[f[c] for c in range(1, nc + 1)], ballots=bl, title='T', names=None,
+                rule='meek-prf', options={})
+
+
 def near_tie_case(d):
     """two candidates with equal first preferences receive slightly different numbers of low-valued papers from a narrow
     surplus: their tallies then differ by a few thousandths - strictly ordered in exact arithmetic, equal or not under a
